@@ -33,8 +33,8 @@ def sh(cmd, cwd=None, timeout=None, env=None):
             out = out.decode(errors="replace")
         return 124, out + "\n[timeout]", time.time() - t0
 
-def load_cfg():
-    with open(os.path.join(VERIF, "tools", "props.json")) as f:
+def load_cfg(prop):
+    with open(os.path.join(VERIF, "tools", "props", prop + ".json")) as f:
         return json.load(f)
 
 def load_known():
@@ -76,13 +76,21 @@ def build_all(prop, cfg, log):
                 open(dst, "w").write(src)
         except OSError:
             pass
-        rc, out, dt = sh(["go", "build", "-tags", "verif", "-o", os.path.join(BUILD, "bin") + "/", "./cmd/..."], cwd=HARNESS, timeout=900)
+        modargs = []
+        if os.path.realpath(REPO) != "/repo":
+            # point the harness build at another copy of golang/geo (mutation testing in a scratch copy)
+            tag = hashlib.sha1(REPO.encode()).hexdigest()[:8]
+            modf = os.path.join(BUILD, "go_%s.mod" % tag)
+            open(modf, "w").write(open(os.path.join(HARNESS, "go.mod")).read().replace("=> /repo", "=> " + os.path.realpath(REPO)))
+            open(os.path.join(BUILD, "go_%s.sum" % tag), "w").write(open(os.path.join(REPO, "go.sum")).read())
+            modargs = ["-modfile=" + modf]
+        rc, out, dt = sh(["go", "build"] + modargs + ["-tags", "verif", "-o", os.path.join(BUILD, "bin") + "/", "./cmd/extract", "./cmd/obs/" + prop.lower()], cwd=HARNESS, timeout=900)
         log.append(("go build", rc, dt, out[-4000:]))
         if rc != 0:
             res["broken"].append({"kind": "harness-build", "detail": out[-3000:]})
             res["fatal"] = "the harness does not build against /repo's working tree (an API the harness uses changed?)"
             return res
-        rc, out, dt = sh([os.path.join(BUILD, "bin", "extract"), "-repo", REPO, "-cfg", os.path.join(HARNESS, "extract.cfg"),
+        rc, out, dt = sh([os.path.join(BUILD, "bin", "extract"), "-repo", REPO, "-cfg", os.path.join(HARNESS, "extract.d"),
                           "-out", os.path.join(COQ, "theories", "Gen"), "-report", os.path.join(BUILD, "extract_report.json")],
                          cwd=HARNESS, timeout=300)
         log.append(("extract", rc, dt, out[-4000:]))
@@ -149,7 +157,7 @@ def parse_assumptions(raw):
     return {"closed_theorems": closed, "axioms": sorted(axioms_all)}
 
 def run_observe(prop, tier, seed, outdir, timeout):
-    return sh([os.path.join(BUILD, "bin", "observe"), "-prop", prop, "-seed", str(seed), "-tier", tier, "-out", outdir],
+    return sh([os.path.join(BUILD, "bin", prop.lower()), "-seed", str(seed), "-tier", tier, "-out", outdir],
               cwd=HARNESS, timeout=timeout)
 
 def run_cases(outdir, timeout):
@@ -183,10 +191,10 @@ def main():
     if tier not in ("quick", "thorough"):
         tier = "quick"
     t0 = time.time()
-    cfgs = load_cfg()
-    if prop not in cfgs:
+    try:
+        cfg = load_cfg(prop)
+    except OSError:
         print("unknown property", prop); sys.exit(2)
-    cfg = cfgs[prop]
     known = load_known()
     log = []
     outdir = os.path.join(BUILD, prop)
